@@ -9,6 +9,11 @@ CLAIMED = {
   technique="deterministic simulation with fault injection: the real jaq binary under a ptrace OS simulator; kill-point and errno sweeps over the fault-free --in-place trace, end-state invariants",
   text="Per generated world (1-3 input files, modes, decoys, filters that succeed/fail at value k, parse errors at value k) the fault-free -i trace defines a finite fault space (kill before every counted syscall, torn writes, every errno of each call's menu, EINTR/short I/O, a mount boundary that makes cross-directory renames fail). Thorough sweeps that space completely per world, quick samples it. After every run the file system is compared with the only allowed states (original bytes / complete output of the same invocation without -i, prefix order over files, modes, no left-overs, bystanders untouched). This is enumeration of crash points and failures, which is what the property quantifies over; it is evidence over the sampled worlds, not a proof over all programs.",
   note="Trusted: kernel, libc, the ptrace tracer, and the binary's own non-in-place output as definition of 'complete output' (the statement's own definition). A killed process is modelled, not power loss."),
+ "C17": dict(
+  level="exploration", design="§3 C17", engine="simos",
+  technique="deterministic simulation with fault injection: the real jaq binary under a ptrace OS simulator, seeded stdin delivery schedules (chunking, EINTR, stall), short/failed writes, failed reads/opens; stdout/exit/stderr history compared with an executable reference model of the command line",
+  text="Seeded runs, each drawing (swarm-style) an option subset in a random documented spelling, a filter from a family exercising the main-loop/input/inputs accounting, halt, error, limit and label, an input stream over stdin or 1-3 files in every supported format (valid or truncated) and a stratum: fault-free, benign (every stdin chunking incl. 1 byte and mid-token, EINTR on reads and writes, short writes, mmap failure forcing the fallback read path) where stdout, stderr-emptiness and exit status must equal the reference model exactly; stall (stdin stops arriving after k values: everything derivable from the delivered prefix must already be on stdout, and runs that need no more input must terminate); failing reads, failing n-th stdout write (output must be a prefix of the model's, status 2, diagnostic), unwritable stderr, failing open of file j. This is sampling of schedules and faults (evidence, not proof); violations are minimised and written as replayable worlds.",
+  note="Trusted: kernel, libc, ptrace tracer, the reference model (vf/src/model/cli.rs, transcribed from docs/cli.dj); the tree's interpreter, slice parsers and value writers are shared by model and system (C01/C07/C14 not claimed). stdout/stderr are never terminals in the simulator."),
 }
 
 NA = {
@@ -32,7 +37,6 @@ PENDING = {
  "C05": "claimed by DESIGN.md for the stream-facing surface only; check not yet implemented in this commit",
  "C06": "claimed by DESIGN.md (syscall policy monitor in simos); check not yet implemented in this commit",
  "C16": "claimed by DESIGN.md for the look-up part only; check not yet implemented in this commit",
- "C17": "claimed by DESIGN.md (run-loop simulation + real binary vs reference model); check not yet implemented in this commit",
  "C19": "claimed by DESIGN.md (shuttle schedules + static Send/Sync); check not yet implemented in this commit",
 }
 
